@@ -44,7 +44,7 @@ NOT_APPLICABLE = {
 }
 
 # /repo commits that add guarded hooks (cfg log4rs_verif)
-HOOK_COMMITS = ['5a2703e', '057fc64', '8991438', 'db83ae1', 'e6cb540', '32ad153', 'e8650e2', '576c8c7', '543b0d5', '0f2b23c', '0e5799d', '5cc9e68', '86dd40b', '7b40c7c', '1e620db', 'f1a4822', 'f6a74ef', '311bbd6', '0315d07', '053d572', '1880721']
+HOOK_COMMITS = ['5a2703e', '057fc64', '8991438', 'db83ae1', 'e6cb540', '32ad153', 'e8650e2', '576c8c7', '543b0d5', '0f2b23c', '0e5799d', '5cc9e68', '86dd40b', '7b40c7c', '1e620db', 'f1a4822', 'f6a74ef', '311bbd6', '0315d07', '053d572', '1880721', '9c5ec54']
 
 PROPS["C03"] = dict(
     functions=[
@@ -744,7 +744,7 @@ NOT_APPLICABLE.update({
     "C04": "RollingFileAppender/FileAppender::append over a file model did not fit CBMC: a single append ran 20 min of symbolic execution and 8-12 GB with std's BufWriter and also with a small array-backed BufWriter model under the guard (heap-resident lengths, io::Error drop fan-out); no meaningful smaller unit of C04 exists (DESIGN.md 9.6)",
     "C05": "same measurement as C04: the appender's append path is out of reach; the pieces that fit are claimed elsewhere (rollers: C07, trigger/policy units: C06, C17); the stream law of C05 itself is not decided",
     "C12": "JsonEncoder::encode_inner (serde_json + chrono formatting + fmt machinery over heap buffers): a 1-unit message was still in symbolic execution after 15 min / 4 GB, and after 30 min / 5.3 GB once the sink could no longer fail (DESIGN.md 9.8 rule 20): serde_json's escape loop writes slices with symbolic bounds, each of which unrolls the sink's copy loop to its bound; no smaller unit of C12 separates from serde_json (DESIGN.md 9.6, 9.8)",
-    "C15": "the public path Logger::new_with_err_handler -> Log::log -> Handle::set_config over the ArcSwap and container models (configuration assembled without the builder, two appenders, one logger, callbacks as trait objects, recursion of the tree and of its drop bounded): 30 min / 9 GB without an answer, twice (DESIGN.md 9.6); the reloader half needs serde_yaml and a thread",
+    "C15": "the public path Logger::new_with_err_handler -> Log::log -> Handle::set_config over the ArcSwap and container models: two 2-appender configurations with one logger: 30 min / 9 GB without an answer, twice; the smallest shape (two root-only configurations with one appender each, no failing appender; solver variables: two levels, the swap position, two record levels): 25 min / 6 GB without an answer - the configuration travels through Option<Config> and Arc, so the length of its (empty) logger list is not a constant for the executor and the stable sort in SharedLogger::new is explored as a phantom for every build (DESIGN.md 9.6, 9.8); the reloader half needs serde_yaml and a thread",
     "C19": "expand_env_vars builds Strings on the heap; every copy has a solver-side symbolic size: 20 s of symbolic execution, then > 12 GB in the SSA-to-SAT conversion for the 12-byte path '/a/$ENV{A}/b' (DESIGN.md 9.6); the defect found by the native twin is fixed",
 })
 
@@ -765,15 +765,16 @@ _one = [("level", "{l}: the level's name"), ("message", "{m}: the message argume
         ("file", "{f}: file or ???"), ("line", "{L}: line or ???"), ("target", "{t}: the target"), ("newline", "{n}"),
         ("thread", "{T}: thread name (constant stand-in under the guard)"), ("tid", "{i}: system thread id (constant stand-in)"),
         ("highlight", "{h()}: one style call before and one reset after for Error/Warn/Info/Trace, none for Debug; no text"),
-        ("debug", "{D()}: empty group"), ("release", "{R()}: empty group")]
+        ("debug", "{D()}: empty group"), ("release", "{R()}: empty group"),
+        ("thread_id", "{I}: thread_id::get() (stub: 7) in decimal"), ("process_id", "{P}: process::id() (stub: 4242) in decimal")]
 PROPS["C09"] = dict(
-    functions=["FormattedChunk::encode - arms Level, Message, Module, File, Line, Target, Newline, Thread, SystemThreadId, Highlight, Debug, Release",
+    functions=["FormattedChunk::encode - arms Level, Message, Module, File, Line, Target, Newline, Thread, SystemThreadId, Highlight, Debug, Release, ThreadId, ProcessId",
                "the default io::Write::{write_fmt, write_all} and the core::fmt machinery they drive (executed for real)"],
     bounds="one formatter per harness (the formatter is an instance parameter); solver variables: record level (5), message and target "
            "text of 0..2 units over {a, '{', '\\', e-acute} (0-4 bytes), presence of module path / file / line; unwind 8",
     outside="EVERYTHING that makes a pattern out of formatters is outside this claim: the parser (text, escapes, arguments, nesting), the "
             "Piece -> Chunk table (names, aliases, arity checks), the in-order loop of PatternEncoder::encode over its heap-stored chunk "
-            "list, group nesting with content, and the formatters date / MDC / process id / thread id (their inputs are stubs). The "
+            "list, group nesting with content, and the date and MDC formatters (one_mdc - two heap strings and the fmt machinery - exhausted 10 GB); process id and thread id are decided only as 'writes what its source returns' (their sources are stubs). The "
             "whole-pattern harnesses (c09_pattern::pat_*) are kept in the harness crate and run natively, but did not fit the solver: "
             "the chunk list lives on the heap and the enum tags are read through unions, so every element explores every formatter "
             "(DESIGN.md 9.6, 9.8). Also outside: longer texts, other scalars.",
@@ -938,6 +939,3 @@ PROPS["C06"]["outside"] = ("size accounting over histories of several appends wi
 PROPS["C06"]["assumptions"] += _fs_assumptions
 PROPS["C06"]["level_note"] = "Trusted: Kani/CBMC/CaDiCaL, E3/E4 for the appender instances."
 
-PROPS["C15P"] = dict(PENDING["C15"])
-SORT_LOOPS = [(r"^core::slice::sort::.*<log4rs::config::Logger", "*", 2)]  # the logger list of these instances is empty: the sort is a phantom
-PROPS["C15P"]["harnesses"] = [H("c15_swap::swap_min", unwindset=TREE_REC(0, add=1) + SORT_LOOPS + BT_LOOPS, timeout=1500, mem_gb=12), H("c15_swap::swap_min_reentrant", unwindset=TREE_REC(0, add=1) + SORT_LOOPS + BT_LOOPS, timeout=1500, mem_gb=12)]
